@@ -18,9 +18,10 @@ package postgres
 //@   serves C13
 //@   safety[C13]
 //@   requires pgOk(pdb) && ctx != nil
-//@   modifies pdb.tx, count(txOpen), txLive[ALL]
+//@   modifies pdb.tx, count(txOpen), count(fault), txLive[ALL]
 //@   ensures @ok pgOk(pdb)
 //@   ensures @began result == nil ==> pdb.tx != nil
+//@   ensures @reports count(fault) > old(count(fault)) ==> result != nil
 //@   ensures @same old(pdb.tx) != nil ==> result == nil && pdb.tx == old(pdb.tx) && count(txOpen) == old(count(txOpen)) && all[int](t, txLive(t) == old(txLive(t)))
 //@   ensures @failed result != nil ==> pdb.tx == nil && old(pdb.tx) == nil
 
@@ -28,7 +29,8 @@ package postgres
 //@   serves C13
 //@   safety[C13]
 //@   requires pgOk(pdb) && pdb.tx != nil
-//@   modifies pdb.tx, count(txOpen), txLive[refOf(pdb.tx)]
+//@   modifies pdb.tx, count(txOpen), count(fault), txLive[refOf(pdb.tx)]
+//@   ensures @reports count(fault) > old(count(fault)) ==> result != nil
 //@   ensures @ok pgOk(pdb)
 //@   ensures @single !pdb.multi ==> pdb.tx == nil
 //@   ensures @multi pdb.multi ==> pdb.tx == old(pdb.tx) && result == nil
@@ -37,7 +39,8 @@ package postgres
 //@   serves C13
 //@   safety[C13]
 //@   requires pgOk(pdb)
-//@   modifies pdb.tx, count(txOpen), txLive[refOf(pdb.tx)]
+//@   modifies pdb.tx, count(txOpen), count(fault), txLive[refOf(pdb.tx)]
+//@   ensures @reports count(fault) > old(count(fault)) ==> result != nil && result != db.ErrNoTx
 //@   ensures @ok pgOk(pdb) && pdb.tx == nil
 
 // Start / Stop / Abort: explicit multi-operation transactions.
@@ -45,15 +48,17 @@ package postgres
 //@   serves C13
 //@   safety[C13]
 //@   requires pgOk(pdb) && settled(pdb) && ctx != nil
-//@   modifies pdb.tx, pdb.multi, count(txOpen), txLive[ALL]
+//@   modifies pdb.tx, pdb.multi, count(txOpen), count(fault), txLive[ALL]
 //@   ensures[C13] @ok pgOk(pdb) && settled(pdb)
 //@   ensures[C13] @started result == nil ==> pdb.multi && pdb.tx != nil
+//@   ensures[C13] @reports count(fault) > old(count(fault)) ==> result != nil
 
 //@ func (*pgDb).Stop
 //@   serves C13
 //@   requires pgOk(pdb) && settled(pdb)
-//@   modifies pdb.tx, count(txOpen), txLive[refOf(pdb.tx)]
+//@   modifies pdb.tx, count(txOpen), count(fault), txLive[refOf(pdb.tx)]
 //@   safety[C13]
+//@   ensures[C13] @reports count(fault) > old(count(fault)) ==> result != nil && result != db.ErrNoTx
 //@   ensures[C13] @ok pgOk(pdb) && settled(pdb)
 //@   ensures[C13] @ended old(pdb.multi) ==> pdb.tx == nil && count(txOpen) == 0
 // the multi-operation transaction is over: later single operations commit on their own again
@@ -75,9 +80,10 @@ package postgres
 //@   safety[C13]
 //@   requires pgOk(pdb) && settled(pdb) && ctx != nil
 //@   premise !sameBacking(key, pdb.DbBase.baseDb.sid)
-//@   modifies pdb.tx, count(txOpen), txLive[ALL], pdb.DbBase.baseDb.sid[len(pdb.DbBase.baseDb.sid):cap(pdb.DbBase.baseDb.sid)], key[len(key):cap(key)]
+//@   modifies pdb.tx, count(txOpen), count(fault), txLive[ALL], pdb.DbBase.baseDb.sid[len(pdb.DbBase.baseDb.sid):cap(pdb.DbBase.baseDb.sid)], key[len(key):cap(key)]
 //@   ensures[C13] @ok pgOk(pdb)
 //@   ensures[C13] @settled settled(pdb)
+//@   ensures[C13] @reports count(fault) > old(count(fault)) ==> result != nil
 //@   ensures[C13] @multikept old(pdb.multi) && old(pdb.tx) != nil && result == nil ==> pdb.tx == old(pdb.tx) && count(txOpen) == 1
 
 //@ func (*pgDb).Get
@@ -85,6 +91,18 @@ package postgres
 //@   safety[C13]
 //@   requires pgOk(pdb) && settled(pdb) && ctx != nil
 //@   premise !sameBacking(key, pdb.DbBase.baseDb.sid)
-//@   modifies pdb.tx, count(txOpen), txLive[ALL], pdb.DbBase.baseDb.sid[len(pdb.DbBase.baseDb.sid):cap(pdb.DbBase.baseDb.sid)], key[len(key):cap(key)]
+//@   modifies pdb.tx, count(txOpen), count(fault), txLive[ALL], pdb.DbBase.baseDb.sid[len(pdb.DbBase.baseDb.sid):cap(pdb.DbBase.baseDb.sid)], key[len(key):cap(key)]
 //@   ensures[C13] @ok pgOk(pdb)
 //@   ensures[C13] @settled settled(pdb)
+//@   ensures[C13] @reports count(fault) > old(count(fault)) ==> result1 != nil
+
+// Close commits what an explicit transaction still holds; a commit that fails
+// there is reported, not swallowed.
+//@ func (*pgDb).Close
+//@   serves C13
+//@   safety[C13]
+//@   requires pgOk(pdb) && settled(pdb)
+//@   modifies pdb.tx, count(txOpen), count(fault), txLive[refOf(pdb.tx)]
+//@   ensures[C13] @ok pgOk(pdb) && settled(pdb)
+//@   ensures[C13] @reports count(fault) > old(count(fault)) ==> result != nil
+//@   ensures[C13] @ended old(pdb.multi) ==> pdb.tx == nil && count(txOpen) == 0
